@@ -279,9 +279,15 @@ impl<S: Clone + Debug> SymbolTable<S> {
                 // If path is not explicitly referring to 'super', we can bubble up and try again
                 match self.parent(nx) {
                     Some(parent_nx) => {
-                        let mut traversal = vec![QueryTraversalStep::Super(parent_nx)];
-                        traversal.extend(self.query_traversal_steps(parent_nx, path));
-                        traversal
+                        // (not found further up either? Then there are no steps at all, instead of only the steps up)
+                        let rest = self.query_traversal_steps(parent_nx, path);
+                        if rest.is_empty() {
+                            vec![]
+                        } else {
+                            let mut traversal = vec![QueryTraversalStep::Super(parent_nx)];
+                            traversal.extend(rest);
+                            traversal
+                        }
                     }
                     None => {
                         // We cannot bubble up anymore, but didn't complete our full traversal.
